@@ -61,7 +61,7 @@ class World:
         return self.handler(self, e)
 
 
-def make_method(world_box, provider, name, is_async, uid):
+def make_method(world_box, provider, name, is_async, uid, wrapped_plain=False):
     if is_async:
         import inspect
 
@@ -80,7 +80,8 @@ def make_method(world_box, provider, name, is_async, uid):
                 created.append((provider, name, c))
             return c
 
-        inspect.markcoroutinefunction(m)
+        if not wrapped_plain:
+            inspect.markcoroutinefunction(m)
 
     else:
 
@@ -101,6 +102,7 @@ def render(am, world_box, class_name=None, strict_states=False):
 
     uid = next(_uid)
     asyncs = {tuple(x) for x in am.get("async", [])}
+    plain_wrapped = {tuple(x) for x in am.get("async_behind_plain_decorator", [])}
     attrs = {}
     states = {}
     for s in am["states"]:
@@ -138,7 +140,7 @@ def render(am, world_box, class_name=None, strict_states=False):
             states[t["src"]].to(states[t["tgt"]], event=" ".join(t["events"]), **kw)
     methods = am.get("methods", {})
     for name in methods.get("machine", []):
-        attrs[name] = make_method(world_box, "machine", name, ("machine", name) in asyncs, uid)
+        attrs[name] = make_method(world_box, "machine", name, ("machine", name) in asyncs, uid, ("machine", name) in plain_wrapped)
     for name, val in am.get("class_attrs", {}).items():
         attrs[name] = val
     cname = class_name or f"VM{uid}"
